@@ -1,8 +1,457 @@
-//! C18 long-history mode (filled in below).
-use rt::journal::Journal;
-use rt::J;
+//! C18 long-history mode: a BytesMut used as a recycling buffer over 10^3..10^6 rounds
+//! of a *balanced* periodic refill/consume pattern (over one period exactly as many
+//! bytes are consumed as appended), so unbounded growth can only be the crate's doing.
+//!
+//! Oracle (DESIGN §5 C18): adaptive warm-up until live memory has stopped rising for a
+//! stretch of 8x(largest capacity + retained bytes) of traffic; that defines N, the peak
+//! P0; then 100*N further rounds: (i) peak <= P0; (ii) with retention window 0 no
+//! byte-buffer allocation inside the refill calls on the recycling handle; (iii) a
+//! reserve on an empty handle that is alone on a large-enough block never allocates.
 
-pub fn batch(_seed: u64, _tag: u64, _from: u64, _to: u64, _args: &[String], _journal: &mut Journal) {}
-pub fn replay(_rec: &J) -> i32 {
-    2
+use std::collections::VecDeque;
+use std::io::Write as _;
+use std::panic::{catch_unwind, AssertUnwindSafe};
+
+use bytes::{Buf, BufMut, Bytes, BytesMut};
+use rt::alloc::{self, AllocCfg, EvKind};
+use rt::journal::Journal;
+use rt::{mix, Rng, Violation, J};
+
+fn arg(args: &[String], k: &str) -> Option<String> {
+    args.iter().position(|a| a == k).and_then(|i| args.get(i + 1).cloned())
+}
+
+const SIZES: &[usize] = &[1, 2, 7, 16, 31, 64, 100, 255, 256, 1000, 1024, 1500, 4096, 9000, 16384];
+
+pub fn gen_pattern(rng: &mut Rng) -> J {
+    let period = rng.range(1, 16);
+    let scale = *rng.pick(&[1usize, 1, 1, 4, 16]);
+    let mut ms: Vec<usize> = Vec::new();
+    for _ in 0..period {
+        let m = match rng.below(4) {
+            0 => *rng.pick(SIZES),
+            1 => rng.range(1, 64),
+            _ => rng.range(1, 400) * scale,
+        };
+        ms.push(m.min(20000));
+    }
+    // consumption = rotation of the appended sizes (balanced by construction)
+    let rot = if rng.chance(1, 2) { 0 } else { rng.below(period) };
+    let maxm = *ms.iter().max().unwrap();
+    let leftover = if rot == 0 { *rng.pick(&[0usize, 0, 1, 17, 300, 3000]) } else { maxm + *rng.pick(&[0usize, 1, 50, 1000]) };
+    let window = *rng.pick(&[0usize, 0, 0, 1, 2, 3, 5]);
+    let mut rounds = Vec::new();
+    for i in 0..period {
+        let k = ms[(i + rot) % period];
+        let style = *rng.pick(&["put_slice", "extend", "scribble", "resize", "put_bytes", "split_off_unsplit", "reserve_put"]);
+        let consume = *rng.pick(&["split_to", "split_to", "advance", "advance", "truncate", "copy_to_bytes", "split_to_freeze"]);
+        rounds.push(
+            J::obj()
+                .set("m", ms[i])
+                .set("k", k)
+                .set("style", style)
+                .set("consume", consume)
+                .set("extra_reserve", if rng.chance(1, 4) { rng.range(0, 64) } else { 0 })
+                .set("roundtrip", if window == 0 && rng.chance(1, 5) { *rng.pick(&["freeze_try_into_mut", "freeze_from", "clone_drop"]) } else { "none" }),
+        );
+    }
+    J::obj()
+        .set("init_cap", *rng.pick(&[0usize, 0, 8, 64, 1024, 4096, 8192, 65536]))
+        .set("leftover", leftover)
+        .set("window", window)
+        .set("period", J::Arr(rounds))
+}
+
+fn balanced(p: &J) -> bool {
+    let per = p.arr("period");
+    if per.is_empty() {
+        return false;
+    }
+    let sm: usize = per.iter().map(|r| r.us("m")).sum();
+    let sk: usize = per.iter().map(|r| r.us("k")).sum();
+    if sm != sk {
+        return false;
+    }
+    // feasibility: never asked to consume more than is there
+    let mut len = p.us("leftover");
+    for r in per {
+        len += r.us("m");
+        if r.us("k") > len {
+            return false;
+        }
+        len -= r.us("k");
+    }
+    true
+}
+
+/// Largest peak / ((window+2) * (init_cap + 2*(leftover+max_req) + 64)) seen on the unchanged
+/// tree over 2*10^5 patterns (see DESIGN §9 calibration); the alarm bound keeps a 2x margin.
+const CALIBRATED_MAX_PM: u64 = 2954;
+const LOOSE_BOUND_PM: u64 = 8000;
+
+enum Part {
+    M(BytesMut),
+    B(Bytes),
+}
+
+pub struct Out {
+    pub viol: Vec<Violation>,
+    pub rounds: u64,
+    pub warmup: u64,
+    pub converged: bool,
+    pub peak: usize,
+    pub refill_allocs_after: u64,
+    pub sole_reserve_probes: u64,
+    pub reclaims: u64,
+    /// peak live bytes / ((window+2) * (init_cap + 2*(leftover+max_req) + 64)), in 1/1000
+    pub ratio_pm: u64,
+}
+
+fn refill_allocs() -> u64 {
+    alloc::take_events().iter().filter(|e| e.align == 1 && matches!(e.kind, EvKind::Alloc | EvKind::ReallocMove | EvKind::ReallocInPlace)).count() as u64
+}
+
+/// Run one pattern for at most `limit` rounds.
+pub fn run_pattern(p: &J, limit: u64, seed: u64) -> Out {
+    let mut out = Out { viol: Vec::new(), rounds: 0, warmup: 0, converged: false, peak: 0, refill_allocs_after: 0, sole_reserve_probes: 0, reclaims: 0, ratio_pm: 0 };
+    if !balanced(p) {
+        return out;
+    }
+    let per: Vec<J> = p.arr("period").to_vec();
+    let window = p.us("window");
+    let leftover = p.us("leftover");
+    let mut acfg_rng = Rng::new(seed);
+    alloc::begin_run(AllocCfg {
+        parity: *acfg_rng.pick(&[alloc::Parity::Even, alloc::Parity::Odd, alloc::Parity::Mixed]),
+        realloc: *acfg_rng.pick(&[alloc::ReallocMode::Move, alloc::ReallocMode::InPlace, alloc::ReallocMode::Mixed]),
+        seed,
+        quarantine_cap: 4 << 20,
+    });
+    let src: Vec<u8> = (0..20000usize).map(|i| (i * 31 + 7) as u8).collect();
+    let max_req = per.iter().map(|r| r.us("m") + r.us("extra_reserve")).max().unwrap_or(1);
+    // the buffer "wraps" (runs out of room and has to reclaim or reallocate) once per
+    // capacity of *front-consumed* bytes; consumption by truncate does not move the front
+    let any_front = per.iter().any(|r| r.str("consume") != Some("truncate") && r.us("k") > 0);
+    let guard_limit = (64usize << 20) + 1024 * (max_req + leftover);
+
+    let r = catch_unwind(AssertUnwindSafe(|| {
+        alloc::track(|| {
+            let mut buf = BytesMut::with_capacity(p.us("init_cap").min(1 << 20));
+            buf.extend_from_slice(&src[..leftover.min(src.len())]);
+            let mut retained: VecDeque<Part> = VecDeque::new();
+            let mut retained_bytes = 0usize;
+            let mut model_len = buf.len();
+            // warm-up state
+            let mut peak = alloc::stats().live_bytes;
+            let mut max_cap = buf.capacity();
+            let mut flowed_since_rise = 0usize;
+            let mut allocs_since_rise = 0u64;
+            let mut measuring = false;
+            let mut n_warm = 0u64;
+            let mut p0 = 0usize;
+            let mut refill_after = 0u64;
+            let mut end_round = limit;
+            let mut round = 0u64;
+            let mut peak_quarter = 0usize;
+            while round < end_round {
+                let spec = &per[(round % per.len() as u64) as usize];
+                let (m, k) = (spec.us("m"), spec.us("k"));
+                // ---------------- refill (calls on the recycling handle)
+                alloc::clear_events();
+                let extra = spec.us("extra_reserve");
+                // (iii) reserve on an empty handle that is alone on a big enough block never allocates
+                let mut sole_probe = false;
+                if buf.is_empty() && retained.is_empty() {
+                    if let Some(b) = alloc::lookup(buf.as_ptr() as usize).filter(|b| b.live) {
+                        if b.align == 1 && b.size >= m + extra {
+                            sole_probe = true;
+                        }
+                    }
+                }
+                match spec.str("style").unwrap_or("put_slice") {
+                    "extend" => buf.extend_from_slice(&src[..m]),
+                    "scribble" => {
+                        buf.reserve(m + extra);
+                        let sp = buf.spare_capacity_mut();
+                        for i in 0..m {
+                            sp[i].write(src[i]);
+                        }
+                        let nl = buf.len() + m;
+                        unsafe { buf.set_len(nl) };
+                    }
+                    "resize" => {
+                        let nl = buf.len() + m;
+                        buf.resize(nl, 0x42);
+                    }
+                    "put_bytes" => buf.put_bytes(0x17, m),
+                    "split_off_unsplit" => {
+                        buf.reserve(m + extra);
+                        let at = buf.len();
+                        let mut tail = buf.split_off(at);
+                        tail.extend_from_slice(&src[..m]);
+                        buf.unsplit(tail);
+                    }
+                    "reserve_put" => {
+                        buf.reserve(m + extra);
+                        buf.put_slice(&src[..m]);
+                    }
+                    _ => buf.put_slice(&src[..m]),
+                }
+                match spec.str("roundtrip").unwrap_or("none") {
+                    "freeze_try_into_mut" => {
+                        let b = std::mem::replace(&mut buf, BytesMut::new()).freeze();
+                        buf = match b.try_into_mut() {
+                            Ok(m) => m,
+                            Err(b) => BytesMut::from(b),
+                        };
+                    }
+                    "freeze_from" => {
+                        let b = std::mem::replace(&mut buf, BytesMut::new()).freeze();
+                        buf = BytesMut::from(b);
+                    }
+                    "clone_drop" => {
+                        let b = std::mem::replace(&mut buf, BytesMut::new()).freeze();
+                        let c = b.clone();
+                        drop(c);
+                        buf = BytesMut::from(b);
+                    }
+                    _ => {}
+                }
+                let ra = refill_allocs();
+                model_len += m;
+                if sole_probe {
+                    out.sole_reserve_probes += 1;
+                    if ra > 0 {
+                        out.viol.push(Violation {
+                            props: vec!["C18", "C08"],
+                            kind: "sole-empty-handle-reserve-allocated".into(),
+                            detail: format!("round {}: refill of {} bytes on an empty handle that is alone on a block large enough made {} byte-buffer allocation(s)", round, m + extra, ra),
+                            step: round as usize,
+                        });
+                        break;
+                    }
+                }
+                if buf.capacity() > max_cap {
+                    max_cap = buf.capacity();
+                }
+                // ---------------- consume
+                alloc::clear_events();
+                match spec.str("consume").unwrap_or("split_to") {
+                    "advance" => buf.advance(k),
+                    "truncate" => {
+                        let nl = buf.len() - k;
+                        buf.truncate(nl);
+                    }
+                    "copy_to_bytes" => {
+                        let part = buf.copy_to_bytes(k);
+                        retained_bytes += k;
+                        retained.push_back(Part::B(part));
+                    }
+                    "split_to_freeze" => {
+                        let part = buf.split_to(k).freeze();
+                        retained_bytes += k;
+                        retained.push_back(Part::B(part));
+                    }
+                    _ => {
+                        let part = buf.split_to(k);
+                        retained_bytes += k;
+                        retained.push_back(Part::M(part));
+                    }
+                }
+                model_len -= k;
+                while retained.len() > window {
+                    match retained.pop_front() {
+                        Some(Part::M(x)) => retained_bytes -= x.len(),
+                        Some(Part::B(x)) => retained_bytes -= x.len(),
+                        None => {}
+                    }
+                }
+                alloc::clear_events();
+                if buf.len() != model_len {
+                    out.viol.push(Violation { props: vec!["C01", "C18"], kind: "length-drift".into(), detail: format!("round {}: len {} but {} expected", round, buf.len(), model_len), step: round as usize });
+                    break;
+                }
+                // ---------------- accounting
+                let st = alloc::stats();
+                round += 1;
+                out.rounds = round;
+                if st.live_bytes > guard_limit {
+                    out.viol.push(Violation {
+                        props: vec!["C18"],
+                        kind: "memory-grows-without-bound".into(),
+                        detail: format!("round {}: {} live bytes (largest request {}, leftover {}, retention window {})", round, st.live_bytes, max_req, leftover, window),
+                        step: round as usize,
+                    });
+                    break;
+                }
+                if !measuring {
+                    let rose = st.peak_live_bytes > peak;
+                    if rose {
+                        peak = st.peak_live_bytes;
+                    }
+                    if rose || (window == 0 && ra > 0) {
+                        flowed_since_rise = 0;
+                        allocs_since_rise = 0;
+                    } else {
+                        let front = spec.str("consume") != Some("truncate");
+                        flowed_since_rise += if !any_front { m } else if front { k } else { 0 };
+                        allocs_since_rise += ra;
+                    }
+                    if round == limit / 4 {
+                        peak_quarter = peak;
+                    }
+                    if flowed_since_rise >= 8 * (max_cap + retained_bytes + max_req) && round >= per.len() as u64 * 2 {
+                        measuring = true;
+                        out.converged = true;
+                        n_warm = round;
+                        out.warmup = round;
+                        p0 = peak;
+                        alloc::reset_peak();
+                        end_round = (round + 100 * round).min(limit);
+                    }
+                } else {
+                    refill_after += ra;
+                    if window == 0 && ra > 0 {
+                        out.viol.push(Violation {
+                            props: vec!["C18"],
+                            kind: "allocation-after-warm-up".into(),
+                            detail: format!(
+                                "round {} (warm-up ended at {}): refilling {} bytes allocated a byte buffer although every split-off part was dropped before (capacity {}, len {})",
+                                round,
+                                n_warm,
+                                m,
+                                buf.capacity(),
+                                buf.len()
+                            ),
+                            step: round as usize,
+                        });
+                        break;
+                    }
+                    if st.peak_live_bytes > p0 {
+                        out.viol.push(Violation {
+                            props: vec!["C18"],
+                            kind: "peak-memory-rose-after-warm-up".into(),
+                            detail: format!("round {} (warm-up ended at {} with peak {}): peak live bytes now {}", round, n_warm, p0, st.peak_live_bytes),
+                            step: round as usize,
+                        });
+                        break;
+                    }
+                }
+            }
+            out.peak = peak.max(alloc::stats().peak_live_bytes).max(p0);
+            let bound_unit = (window + 2) * (p.us("init_cap").min(1 << 20) + 2 * (leftover + max_req) + 64);
+            out.ratio_pm = (out.peak as u64 * 1000) / bound_unit as u64;
+            if out.viol.is_empty() && out.ratio_pm > LOOSE_BOUND_PM {
+                out.viol.push(Violation {
+                    props: vec!["C18"],
+                    kind: "peak-memory-beyond-any-bounded-implementation".into(),
+                    detail: format!(
+                        "after {} rounds peak live bytes {} = {:.1} x (window+2) x (initial capacity + 2 x (leftover + largest request)); calibrated maximum on the unchanged tree is {:.1}",
+                        out.rounds,
+                        out.peak,
+                        out.ratio_pm as f64 / 1000.0,
+                        CALIBRATED_MAX_PM as f64 / 1000.0
+                    ),
+                    step: out.rounds as usize,
+                });
+            }
+            out.refill_allocs_after = refill_after;
+            if !measuring && out.viol.is_empty() && out.rounds >= limit {
+                // never settled: only a clear upward trend is reported
+                if peak_quarter > 0 && peak >= 4 * peak_quarter && peak > 8 * (max_req + leftover + 64) {
+                    out.viol.push(Violation {
+                        props: vec!["C18"],
+                        kind: "no-convergence-memory-keeps-growing".into(),
+                        detail: format!("after {} rounds memory never settled: peak {} at 1/4 of the run, {} at the end", limit, peak_quarter, peak),
+                        step: limit as usize,
+                    });
+                }
+            }
+            drop(retained);
+            drop(buf);
+        })
+    }));
+    if let Err(pn) = r {
+        out.viol.push(Violation { props: vec!["C18", "C01"], kind: "unexpected-panic".into(), detail: rt::panic_message(&*pn), step: out.rounds as usize });
+    }
+    for m in alloc::take_violations() {
+        out.viol.push(Violation { props: vec!["C02"], kind: format!("alloc:{}", m.split(':').next().unwrap_or("")), detail: m, step: out.rounds as usize });
+    }
+    out
+}
+
+pub fn batch(seed: u64, tag: u64, from: u64, to: u64, args: &[String], journal: &mut Journal) {
+    let limit: u64 = arg(args, "--steps").and_then(|s| s.parse().ok()).unwrap_or(20000);
+    let out = std::io::stdout();
+    let (mut rounds, mut conv, mut viol_runs, mut probes, mut warm_max) = (0u64, 0u64, 0u64, 0u64, 0u64);
+    let mut ratio_max = 0u64;
+    let mut hashes: Vec<J> = Vec::new();
+    let mut samples: Vec<J> = Vec::new();
+    for i in from..to {
+        let run_seed = mix(&[seed, tag, i]);
+        let mut rng = Rng::new(run_seed);
+        let p = gen_pattern(&mut rng);
+        journal.reset(&J::obj().set("run", i).set("seed", run_seed).set("profile", "recycle").set("cfg", J::obj()).set("pattern", p.clone()).dump());
+        let r = run_pattern(&p, limit, run_seed);
+        rounds += r.rounds;
+        if r.converged {
+            conv += 1;
+        }
+        probes += r.sole_reserve_probes;
+        warm_max = warm_max.max(r.warmup);
+        ratio_max = ratio_max.max(r.ratio_pm);
+        hashes.push(J::from(rt::fnv(p.dump().as_bytes())));
+        if samples.len() < 2 && r.converged {
+            samples.push(J::obj().set("run", i).set("pattern", p.clone()).set("warmup_rounds", r.warmup).set("rounds", r.rounds).set("peak_live_bytes", r.peak));
+        }
+        if !r.viol.is_empty() {
+            viol_runs += 1;
+            let rec = J::obj()
+                .set("type", "violation")
+                .set("engine", "seq")
+                .set("profile", "recycle")
+                .set("run", i)
+                .set("seed", run_seed)
+                .set("cfg", J::obj())
+                .set("pattern", p.clone())
+                .set("limit", limit)
+                .set("ops", J::Arr(p.arr("period").to_vec()))
+                .set("violations", J::Arr(r.viol.iter().map(|v| v.to_json()).collect()));
+            let _ = writeln!(out.lock(), "{}", rec.dump());
+        }
+    }
+    let sum = J::obj()
+        .set("type", "summary")
+        .set("runs", to - from)
+        .set("steps", rounds)
+        .set("viol_runs", viol_runs)
+        .set("oob_steps", 0u64)
+        .set("panics", 0u64)
+        .set("x_converged", conv)
+        .set("x_sole_reserve_probes", probes)
+        .set("x_max_warmup_rounds", warm_max)
+        .set("y_ratio_max_pm", ratio_max)
+        .set("probes", J::obj())
+        .set("alloc", J::obj())
+        .set("nontrivial", J::Arr(hashes))
+        .set("state_sample", J::Arr(vec![]))
+        .set("samples", J::Arr(samples));
+    let _ = writeln!(out.lock(), "{}", sum.dump());
+}
+
+pub fn replay(rec: &J) -> i32 {
+    let mut p = rec.get("pattern").cloned().unwrap_or(J::obj());
+    // the minimiser edits "ops" (= the period list)
+    if let Some(J::Arr(ops)) = rec.get("ops") {
+        p.put("period", J::Arr(ops.clone()));
+    }
+    let limit = rec.u64("limit").max(100);
+    let r = run_pattern(&p, limit, rec.u64("seed"));
+    let o = J::obj().set("type", "replay").set("steps", r.rounds).set("violations", J::Arr(r.viol.iter().map(|v| v.to_json()).collect()));
+    println!("{}", o.dump());
+    if r.viol.is_empty() {
+        0
+    } else {
+        1
+    }
 }
